@@ -1,5 +1,6 @@
 import MorfuseModel.Sched.Machine
 import MorfuseModel.Sched.MachineHostProps
+import MorfuseModel.Sched.MachineInstHost
 /-!
 # C13 — nothing outlives its script: idle means empty, reset means clean
 
@@ -235,5 +236,91 @@ example : (runOps {} (demoQuiesce ++ [.step 5])).outOfFuel = false ∧
 /-- `Reset()` in the suspended state destroys both threads -/
 example : (hostReset (runOps {} demoQuiesce)).outOfFuel = false ∧ (hostReset (runOps {} demoQuiesce)).threads = [] ∧
     idleFlag (hostReset (runOps {} demoQuiesce)) = true := by decide +kernel
+
+/-! ## Machine level, with the instance list: the idle flag itself
+
+`reachable_hinv2` (`Sched/MachineInstHost.lean`): in every reachable state (same `Reachable` as above, modulo
+fuel) the instance-list invariant `J []` holds — every thread record that still has its VM is in the chain
+of the *listed* script instance `th.inst`; every listed instance has a non-empty, duplicate-free chain of
+live records (not dead, VM not destroyed, attached) of that instance.  Proved through every function of the
+machine (`jqAll`: destruction cascades, under the structural invariant alone; `jAll`: instructions,
+`Process`, `ScriptVM::Execute`, the timer loop, `ScriptExecuteInternal`, on top of `iAll`) and through
+`~ScriptClass` / `Reset` / recompile with the instance being destroyed exempt. -/
+
+/-- `chainOf` of this file is the `instChain` of the invariant -/
+theorem chainOf_eq_instChain (s : State) (i : Nat) : chainOf s i = instChain s.insts i := rfl
+
+/-- **Suspended is not idle, machine level.**  In every reachable state, while some thread is `timing` or
+    `waiting` its script instance is in the director's list with that thread in its chain, so the engine's
+    idle flag is down. -/
+theorem C13_machine_suspended_not_idle {s : State} (h : Reachable s) :
+    s.outOfFuel = true ∨
+      ∀ t th, s.th? t = some th → (th.ts = .timing ∨ th.ts = .waiting) →
+        t ∈ chainOf s th.inst ∧ hasInst s th.inst = true ∧ idleFlag s = false := by
+  refine (reachable_hinv2 h).map (fun hi t th hf hs => ?_)
+  have hv := (hi.h.inv.suspended_live hf hs).1
+  rw [State.th?_eq] at hf
+  have hm : t ∈ instChain s.insts th.inst := by
+    rcases hi.j.a t th hf hv with m | m
+    · cases m
+    · exact m
+  obtain ⟨e, he, hk, _⟩ := instChain_mem hm
+  refine ⟨hm, ?_, ?_⟩
+  · unfold hasInst
+    exact List.any_eq_true.2 ⟨e, he, by simpa using hk⟩
+  · unfold idleFlag
+    cases hL : s.insts with
+    | nil => rw [hL] at he; cases he
+    | cons a l => rfl
+
+/-- **Quiescent means idle, machine level.**  In every reachable state in which no thread record is live
+    and the event queue is drained, the director's instance list, the timer and both listener tables are
+    empty and the engine's idle flag is up.
+    (That the queue holds no event of a dead thread is not part of the invariant — `cancelEvents` runs in
+    every thread destructor, compared with the engine — hence the hypothesis.) -/
+theorem C13_machine_quiescent_means_idle {s : State} (h : Reachable s) :
+    s.outOfFuel = true ∨
+      ((∀ t th, s.th? t = some th → th.dead = true) → s.events = [] →
+        idleFlag s = true ∧ s.insts = [] ∧ s.timer.elems = [] ∧ s.notify = [] ∧ s.waitFor = []) := by
+  refine (reachable_hinv2 h).map (fun hi hq hev => ?_)
+  have hI : s.insts = [] := by
+    cases hL : s.insts with
+    | nil => rfl
+    | cons e l =>
+      exfalso
+      have he : e ∈ s.insts := by rw [hL]; exact List.mem_cons_self
+      obtain ⟨b1, _, b3⟩ := hi.j.b e he
+      obtain ⟨u, hu⟩ := List.exists_mem_of_ne_nil _ b1
+      obtain ⟨th, h1, h2, _⟩ := b3 u hu
+      rw [hq u th h1] at h2; cases h2
+  obtain ⟨q1, q2, q3⟩ := hi.h.inv.quiescent_empty hq
+  exact ⟨by unfold idleFlag; rw [hI, hev]; rfl, hI, q1, q2, q3⟩
+
+/-- **Every listed instance is alive, machine level**: in every reachable state each instance in the
+    director's list has a non-empty chain without duplicates, every member is a live thread record of that
+    instance whose VM exists; and every thread that has its VM is in exactly that chain. -/
+theorem C13_machine_instances_consistent {s : State} (h : Reachable s) :
+    s.outOfFuel = true ∨
+      ((∀ e ∈ s.insts, e.2 ≠ [] ∧ e.2.Nodup ∧ ∀ t ∈ e.2, ∃ th, s.th? t = some th ∧ th.dead = false ∧
+          th.vm ≠ .destroyed ∧ th.inst = e.1) ∧
+       (∀ t th, s.th? t = some th → th.hasVM = true → t ∈ chainOf s th.inst)) := by
+  refine (reachable_hinv2 h).map (fun hi => ⟨fun e he => ?_, fun t th hf hv => ?_⟩)
+  · obtain ⟨b1, b2, b3⟩ := hi.j.b e he
+    exact ⟨b1, b2, fun t ht => by
+      obtain ⟨th, k1, k2, k3, k4, _⟩ := b3 t ht
+      exact ⟨th, k1, k2, k3, k4⟩⟩
+  · rcases hi.j.a t th hf hv with m | m
+    · cases m
+    · exact m
+
+/-! ### non-vacuity -/
+
+/-- the suspended demo state: both threads are in the chain of instance 1 -/
+example : (runOps {} demoQuiesce).insts = [(1, [101, 100])] ∧ idleFlag (runOps {} demoQuiesce) = false := by
+  decide +kernel
+
+/-- two instances (the second from `waitthread`), three suspended threads -/
+example : (runOps {} [.script [[.waitthread 1, .mark 1], [.thread 2, .wait 5], [.wait 9]] [0, 0, 0], .call 0 []]).insts =
+    [(2, [102, 101]), (1, [100])] := by decide +kernel
 
 end Morfuse.Sched
